@@ -80,6 +80,16 @@ CHECKS = {
             'processes under 3 (thorough 16) PYTHONHASHSEEDs. Held on the histories observed.',
             'Trusted: the library translating the edited workbook afresh as the meaning of "edit and recalculate". '
             'None / empty-text overrides not generated.'),
+    'C05': ('runtime monitoring: conservation monitors on Lexer.parse / EntryPointToken.get / Context.set_cell + boundary '
+            'outcome classes over mutated token streams',
+            'Valid formulas are mutated at token level (append/insert/delete/duplicate/brackets/arguments/adjacent operands/'
+            'quotes/exponent/percent), whitespace is inserted at every token boundary, separators are swapped and every '
+            'supported function is called with 0..7 arguments; each text goes through the real entry-point translation while '
+            'monitors check that code is only emitted for a completely consumed token stream, that lexer pieces add up to the '
+            'text, that foreign exceptions never stand in for a rejection, that arities outside the grammar table are rejected, '
+            'that whitespace/separator variants agree with their base, and that accepted texts agree with the reference\'s parse '
+            'of the complete text. Held on the texts observed.',
+            'Trusted: arity table transcribed from the pinned grammar; vf/xlref for accepted texts only.'),
 }
 
 LEVELS = {}
